@@ -17,7 +17,7 @@ CLAIM = ('Proved in Coq END TO END for the model, Numbers naming without and wit
          'C14_numd_member_pattern, C14_ts_member_pattern, C14_tsd_member_pattern; for the time-stamp namings the pattern was still '
          "\"what chrono's lenient parser reads as a time stamp\" until a second reviewer saw a_r+2024-01-05_03-04-05.log and "
          'a_r2024-1-5_3-4-5.log removed by the cleanup - repaired (b8c3c12), the pattern is now the canonical text of a time stamp, '
-         'canonical_ts; a number-named file is foreign to a time-stamp '
+         'canonical_ts - the infix of every member is a text the format writes, C14_ts_infix_is_written_text; a number-named file is foreign to a time-stamp '
          'logger and vice versa: C14_number_files_foreign_ts, C14_ts_files_foreign_number; C14_num_foreign_non_digit). Decided '
          'per explored history by comparing, on the implementation, a run in a directory pre-populated with foreign files (near '
          'misses of the family pattern) with its twin run in a clean directory: every foreign file must still exist with '
@@ -40,7 +40,7 @@ CLAIM = ('Proved in Coq END TO END for the model, Numbers naming without and wit
          'a cleanup strategy are proved as well (C14_timestampsdirect_cleanup_foreign_ignored, '
          'C14_timestamps_cleanup_foreign_ignored and the _foreign_dir variants). Partial: histories with queries, reopen, faults '
          'or kills, are decided by the twin runs only. ')
-THEOREMS = ["C14_numbers_foreign_ignored", "C14_numbers_stream_foreign", "C14_numbers_cleanup_foreign_ignored", "C14_foreign_ignored", "C14_listing_accepts_family_only", "C14_listing_accepts_all_family", "C14_family_name_shape", "C14_listing_prefix", "C14_numbersdirect_foreign_ignored", "C14_numbersdirect_stream_foreign", "C14_timestampsdirect_foreign_ignored", "C14_timestampsdirect_stream_foreign", "C14_timestamps_foreign_ignored", "C14_timestamps_stream_foreign", "C14_ts_member_shape", "C14_num_member_pattern", "C14_numd_member_pattern", "C14_tsd_member_pattern", "C14_ts_member_pattern", "C14_num_foreign_non_digit", "C14_number_files_foreign_ts", "C14_ts_files_foreign_number", "C14_numbersdirect_cleanup_foreign_ignored", "C14_numbersdirect_cleanup_foreign_dir", "C14_timestampsdirect_cleanup_foreign_ignored", "C14_timestampsdirect_cleanup_foreign_dir", "C14_timestamps_cleanup_foreign_ignored", "C14_timestamps_cleanup_foreign_dir"]
+THEOREMS = ["C14_ts_infix_is_written_text", "C14_numbers_foreign_ignored", "C14_numbers_stream_foreign", "C14_numbers_cleanup_foreign_ignored", "C14_foreign_ignored", "C14_listing_accepts_family_only", "C14_listing_accepts_all_family", "C14_family_name_shape", "C14_listing_prefix", "C14_numbersdirect_foreign_ignored", "C14_numbersdirect_stream_foreign", "C14_timestampsdirect_foreign_ignored", "C14_timestampsdirect_stream_foreign", "C14_timestamps_foreign_ignored", "C14_timestamps_stream_foreign", "C14_ts_member_shape", "C14_num_member_pattern", "C14_numd_member_pattern", "C14_tsd_member_pattern", "C14_ts_member_pattern", "C14_num_foreign_non_digit", "C14_number_files_foreign_ts", "C14_ts_files_foreign_number", "C14_numbersdirect_cleanup_foreign_ignored", "C14_numbersdirect_cleanup_foreign_dir", "C14_timestampsdirect_cleanup_foreign_ignored", "C14_timestampsdirect_cleanup_foreign_dir", "C14_timestamps_cleanup_foreign_ignored", "C14_timestamps_cleanup_foreign_dir"]
 TRUSTED = ["modelled, not verified: read_dir, Path::extension/file_stem (std semantics written out in coq/Base/PathName.v and tied by the try_from cases of C16)"]
 ASSUMPTIONS = ["foreign names are generated from a near-miss grammar; file modification times are not compared (content and existence are)"]
 RULE = ("pairs of cases: (a) 1-4 foreign files/sub-directories created first - other separator, longer/shorter basename with common "
